@@ -33,17 +33,19 @@ pub struct Error {
     pub span: Span,
 }
 
-impl From<pest::error::Error<Rule>> for Error {
-    fn from(error: pest::error::Error<Rule>) -> Self {
+impl Error {
+    /// Builds the diagnostic for a grammar error. The location reported by pest is an
+    /// absolute offset into the whole input, so the whole input is the source to show.
+    fn from_pest(error: pest::error::Error<Rule>, input: &str) -> Self {
         match &error.variant {
             pest::error::ErrorVariant::ParsingError { positives, .. } => Error {
                 message: format!("expected {positives:?}"),
-                src: error.line().to_string(),
+                src: input.to_string(),
                 span: error.location.into(),
             },
             pest::error::ErrorVariant::CustomError { message } => Error {
                 message: message.clone(),
-                src: error.line().to_string(),
+                src: input.to_string(),
                 span: error.location.into(),
             },
         }
@@ -1538,7 +1540,8 @@ impl AstNode for ChainSpecificBlock {
 /// let program = parse_string("tx swap() {}").unwrap();
 /// ```
 pub fn parse_string(input: &str) -> Result<Program, Error> {
-    let pairs = Tx3Grammar::parse(Rule::program, input)?;
+    let pairs =
+        Tx3Grammar::parse(Rule::program, input).map_err(|e| Error::from_pest(e, input))?;
     Program::parse(pairs.into_iter().next().unwrap())
 }
 
